@@ -284,9 +284,9 @@ class Surface:
         if form == 'colon':
             return [indent + self.kw('note_body') + ': ' + self.string(text, 'note_' + site, is_note=True, indent=indent)]
         inner = indent + self.body_indent(site + '_note')
-        return [indent + self.kw('note_body') + ' {',
-                inner + self.string(text, 'note_' + site, is_note=True, indent=inner),
-                indent + '}']
+        return ([indent + self.kw('note_body') + ' {'] + self.blank('noteblock')
+                + [inner + self.string(text, 'note_' + site, is_note=True, indent=inner)] + self.blank('noteblock_end')
+                + [indent + '}'])
 
     def body_indent(self, site: str) -> str:
         return self.sp.pick('indent', site, ['    ', '  ', '', '\t', ' '], [4, 3, 1, 1, 1])
@@ -454,6 +454,7 @@ class Surface:
                 for n, ix in enumerate(t['indexes']):
                     block.extend(self.blank('idx'))
                     block.extend(self.index(ix, inner, n))
+                block.extend(self.blank('idx_end'))
                 block.append(indent + '}')
                 insert(block, 'indexes')
             for e in elems:
@@ -529,7 +530,9 @@ class Surface:
                 lines.extend((head + ': ' + body + trailing).split('\n'))
             else:
                 lines.append(head + ' {')
+                lines.extend(self.blank('ref_body'))
                 lines.extend((indent + body + trailing).split('\n'))
+                lines.extend(self.blank('ref_end'))
                 lines.append('}')
             return lines
 
@@ -560,6 +563,7 @@ class Surface:
             for e in elems:
                 lines.extend(self.blank('group_body'))
                 lines.extend(e)
+            lines.extend(self.blank('group_end'))
             lines.append('}')
             return lines
 
@@ -582,6 +586,7 @@ class Surface:
             for e in elems:
                 lines.extend(self.blank('project_body'))
                 lines.extend(e)
+            lines.extend(self.blank('project_end'))
             lines.append('}')
             return lines
 
@@ -590,7 +595,9 @@ class Surface:
         with sp.at('n:' + n['name']):
             indent = self.body_indent('sticky')
             lines = [self.kw('sticky') + ' ' + self.ident(n['name'], 'sticky_name') + ' {']
+            lines.extend(self.blank('sticky_body'))
             lines.extend((indent + self.string(n['text'], 'sticky', is_note=True, indent=indent)).split('\n'))
+            lines.extend(self.blank('sticky_end'))
             lines.append('}')
             return lines
 
